@@ -93,7 +93,10 @@ Definition remove_exchange (id : Z) (s : mexset) : mexset :=
 Definition expire_exchange (id : Z) (s : mexset) : mexset :=
   let '(found, expired, s1) := delete_exchange id s in
   let s2 := if found || expired
-            then {| ms_exch := ms_exch s1; ms_expired := id :: ms_expired s1; ms_shutdown := ms_shutdown s1;
+            then {| ms_exch := ms_exch s1;
+                    (* expiredExchanges is a map: recording an id twice keeps one key *)
+                    ms_expired := if has id (ms_expired s1) then ms_expired s1 else id :: ms_expired s1;
+                    ms_shutdown := ms_shutdown s1;
                     ms_objs := ms_objs s1; ms_rechecks := ms_rechecks s1; ms_added := ms_added s1; ms_out := ms_out s1 |}
             else s1 in
   add_recheck s2.
